@@ -1,6 +1,6 @@
 """C07 - ConstraintKMeans produces clusters of equal size."""
 from vf import loader
-from vf.core import Clause, Outcome, Violation, require
+from vf.core import Clause, Outcome, Violation, require, np_scalars, with_np
 
 import numpy as np
 from hypothesis import strategies as st
@@ -13,7 +13,7 @@ RULE = ("Hypothesis draws k first, then n = a*k + r with r uniform in 0..k-1 (so
         "n_init 1..2, and query batches of any size m>=1; clause `large` repeats the statement on batches of 257..1100 rows through a small model and on training sets of 257..420 rows (rows derived from a drawn seed). Oracle: validity predicates from the statement (label histogram in "
         "{floor(n/k), ceil(n/k)}, labels in range(k), finite centres, n_iter_<=max_iter, balanced predictions obey the same "
         "constraint on the batch, plain predictions are a Euclidean-nearest centre). Non-trivial: n mod k >= 2, or the plain "
-        "KMeans labels (same seed) violate the quota by >= 2, or duplicate rows. Distinct by (strategy, kmeans0, n, k, d, data).")
+        "KMeans labels (same seed) violate the quota by >= 2, or duplicate rows. One case in three passes its scalar hyper-parameters as NumPy scalars (numpy.bool_, numpy.int64, numpy.float64). Distinct by (strategy, kmeans0, n, k, d, data).")
 ASSUMPTIONS = ["strategy='weights' is outside the statement and not generated", "no sample weights (the statement does not mention them)",
                "max_iter >= 2 (fit halves it for the initial k-means and scikit-learn rejects max_iter=0)"]
 TOLERANCES = {"nearest-centre": "1e-9 * (1 + max squared distance)"}
@@ -28,9 +28,9 @@ def _hist_ok(labels, k, n):
 
 
 def _model(case, balanced):
-    return _mod.ConstraintKMeans(n_clusters=case["k"], strategy=case["strategy"], kmeans0=case["kmeans0"],
-                                 random_state=case["random_state"], max_iter=case["max_iter"], n_init=case["n_init"],
-                                 balanced_predictions=balanced, init=case.get("init", "k-means++"))
+    return _mod.ConstraintKMeans(**np_scalars(dict(n_clusters=case["k"], strategy=case["strategy"], kmeans0=case["kmeans0"],
+                                                   random_state=case["random_state"], max_iter=case["max_iter"], n_init=case["n_init"],
+                                                   balanced_predictions=balanced, init=case.get("init", "k-means++")), case.get("np_params", False)))
 
 
 def _expand(case):
@@ -149,8 +149,8 @@ def _large_cases(draw, tier="quick"):
 
 
 CLAUSES = [
-    Clause("large", check_fit, strategy=lambda tier: _large_cases(tier), quick=48, thorough=800, quick_shards=16, thorough_shards=16,
+    Clause("large", check_fit, strategy=lambda tier: with_np(_large_cases(tier)), quick=48, thorough=800, quick_shards=16, thorough_shards=16,
            doc="the same statement on batches / training sets of several hundred rows (sizes crossing 256, 512, 1024)"),
-    Clause("fit-predict", check_fit, strategy=lambda tier: _cases(tier), quick=3200, thorough=60000, quick_shards=16,
+    Clause("fit-predict", check_fit, strategy=lambda tier: with_np(_cases(tier)), quick=3200, thorough=60000, quick_shards=16,
            doc="sizes after fit, label range, finite centres, n_iter_, balanced / nearest predictions"),
 ]
